@@ -1,7 +1,7 @@
 // Package hlsim builds a complete mobius server (production handlers, production
 // file-backed stores) inside a temp directory and drives it with simulated clients over
 // net.Pipe.  It is meant to run inside a testing/synctest bubble: every stimulus is
-// followed by synctest.Wait(), all assertions are made at quiescence.
+// followed by Quiesce(), all assertions are made at quiescence.
 package hlsim
 
 import (
@@ -14,7 +14,6 @@ import (
 	"strings"
 	"sync"
 	"sync/atomic"
-	"testing/synctest"
 	"time"
 
 	"github.com/jhalter/mobius/hotline"
@@ -295,10 +294,12 @@ func (w *World) closeAll() {
 		<-c.readerDone
 		<-c.writerDone
 	}
-	synctest.Wait()
+	Quiesce()
 	// let delayed goroutines (1 s ban message, 1-3 s delayed disconnects, 3 s transfer tail) finish
-	time.Sleep(5 * time.Second)
-	synctest.Wait()
+	if !w.opt.ProductionPump {
+		time.Sleep(5 * time.Second)
+	}
+	Quiesce()
 	w.srvWG.Wait()
 }
 
@@ -312,7 +313,7 @@ func (w *World) stopPump() {
 	if w.cancel != nil {
 		w.cancel()
 	}
-	synctest.Wait()
+	Quiesce()
 }
 
 // Stop tears the world down in the order a bubble needs: close clients, join readers,
@@ -329,8 +330,8 @@ func (w *World) Stop() {
 func (w *World) Remove() { _ = os.RemoveAll(w.Sandbox) }
 
 // Connect opens a control connection from the given remote address ("ip:port").
-func (w *World) Connect(remote string) *Conn {
-	c := newConn(w, remote)
+func (w *World) Connect(remote string, opts ...func(*Conn)) *Conn {
+	c := newConnOpts(w, remote, opts)
 	if w.NewSplit != nil {
 		c.Split = w.NewSplit("ctl")
 	}
